@@ -83,6 +83,23 @@ def run(tier, replay=None):
                 fam = c['id'].split(':')[0] if not c['id'].startswith('rand') else 'random'
                 chk.violation("%s:%s" % (fam, v['why']), "compiled program %s: %s (after %d instructions)" % (c['id'], v['why'], v['n']),
                               {"prog.x": c['src'], "record.json": json.dumps(recs[[k[0]['id'] for k in keep].index(c['id'])])})
+        # the largest compiled program there is - the X compiler written in X (tests/x/xhexb.x), compiling a source: the same invariants over
+        # 1.3M instructions, in segments (spec/IsaSegRegionV).  Drift grade: XLang cannot run xhexb.x to certify it well defined.
+        import seglib, corpus
+        tools = corpus.tools()
+        xsrc = os.path.join(vlib.REPO, "tests/x/xhexb.x"); xb = os.path.join(d, "xhexb.bin")
+        vlib.sh([os.path.join(tools, "xcmp"), xsrc, "-o", xb], check=True, timeout=300)
+        blst = vlib.sh([os.path.join(tools, "xcmp"), "-S", xsrc], check=True, timeout=300).stdout.decode()
+        bprog, blines, _ = asmlib.parse_listing(blst)
+        bdata = [ln['off'] // 4 for dct, ln in zip(bprog, blines) if dct['k'] == 'data']
+        boots = [("skip", b"proc main() is skip\n", 80000)] + ([("hello", open(os.path.join(vlib.REPO, "tests/x/hello_prints.x"), "rb").read(), 250000)] if tier != "quick" else [])
+        bdrift = 0
+        for tag, src, K in boots:
+            rr = seglib.region_run(chk, d, xb, bdata, src, K, "c08boot-" + tag)
+            chk.cov.setdefault("bootstrap_region_runs", {})[tag] = rr
+            steps += rr["instructions"]
+            bdrift += bool(rr["stored_and_fetched"]) + bool(rr["stack_pointer_above_load_time_value"]) + bool(rr["first_store_outside_data_and_free_memory"])
+        chk.set("DRIFT_bootstrap_runs_leaving_their_regions", bdrift)
         chk.add("states", steps); chk.add("transitions", steps)
         chk.set("programs_compiled", len(cases))
         chk.set("programs_well_defined_and_checked", len(keep))
